@@ -28,6 +28,7 @@
 #include "media.h"		// for AbstractImageFile
 #include "storage.h"		// for StorageConfiguration
 #include "track.h"		// for Sector
+#include "verif_trace.h"
 
 using Track::Sector;
 using Track::byte;
@@ -271,6 +272,9 @@ private:
     std::optional<DFS::SectorBuffer> read_block(unsigned long lba) override
     {
       if (lba >= sectors_.size() || geom_.sectors == 0)
+	VERIF_EVENT("{\"e\":\"fread\",\"fmt\":\"hxc\",\"side\":%u,\"spt\":%u,\"lba\":%lu,\"cyl\":0,\"rec\":0,\"found\":-1,\"size\":0,\"sum\":0}",
+		    unsigned(side_), unsigned(geom_.sectors), lba);
+      if (lba >= sectors_.size() || geom_.sectors == 0)
 	return std::nullopt;
       // Find the sector by its address; if some sectors of the
       // track could not be read, the position of a sector in
@@ -283,11 +287,16 @@ private:
 	      sect.address.head == side_ &&
 	      sect.address.record == record)
 	    {
+	      VERIF_EVENT("{\"e\":\"fread\",\"fmt\":\"hxc\",\"side\":%u,\"spt\":%u,\"lba\":%lu,\"cyl\":%lu,\"rec\":%lu,\"found\":1,\"size\":%lu,\"sum\":%lu}",
+			  unsigned(side_), unsigned(geom_.sectors), lba, cylinder, record, (unsigned long)sect.data.size(),
+			  verif::sum(sect.data.begin(), sect.data.end()));
 	      DFS::SectorBuffer buf;
 	      std::copy(sect.data.begin(), sect.data.end(), buf.begin());
 	      return buf;
 	    }
 	}
+      VERIF_EVENT("{\"e\":\"fread\",\"fmt\":\"hxc\",\"side\":%u,\"spt\":%u,\"lba\":%lu,\"cyl\":%lu,\"rec\":%lu,\"found\":0,\"size\":0,\"sum\":0}",
+		  unsigned(side_), unsigned(geom_.sectors), lba, cylinder, record);
       return std::nullopt;
     }
 
